@@ -231,3 +231,18 @@ _extend("C13", "interpretation of is_known_tagtype on its complete domain (-1..2
 for _pid in ("C10", "C11", "C16"):
     _extend(_pid, "shape fallback: where a structural rule does not recognise the spelling of a clause and the scenario group for that clause holds, the clause is reported as decided on the enumerated scenarios only",
             "")
+
+# ---- round 8 of breaking changes (state between calls, shared objects, one-shot iterables)
+for _pid in ("C01", "C02", "C03", "C04", "C05", "C06", "C07", "C08", "C10", "C11", "C13", "C14"):
+    _extend(_pid, "effect rules over every function of the library modules: no module-level, class-level or default-argument state, no in-place change of an entry of a module-level table, no write to the own object outside constructors and the documented mutators",
+            "Additionally (a necessary condition of every clause that quantifies over histories): no function of bec2format or of the plug-in adapter keeps state between calls outside the objects it is given, and outside the constructors only the five documented mutation sites write to their own object; whether two calls give equal results is not decided.")
+for _pid in ("C16", "C17", "C18", "C19"):
+    _extend(_pid, "effect rules over the vendored package: no module-level, class-level or default-argument state",
+            "Additionally: no function of the vendored package writes module-level or class-level state (a key-schedule or decoding memo shared by all objects), so results cannot depend on earlier calls on another object through such state.")
+for _pid in ("C02", "C07", "C09", "C15"):
+    _extend(_pid, "path count of traversals of parameters that may be any iterable, through the library's own call graph",
+            "Additionally: a parameter that may be a one-shot iterable (and a local bound to a filter / map / generator object) is traversed at most once on every path, so a generator argument behaves like a list.")
+_extend("C20", "alias rule for the shared attributes reached through the instance dictionary and its shallow copies; lock wiring read from the constructor when a switch is bound to its lock",
+        "Additionally: the published table and the coordinate tuple are not changed in place through self.__dict__, vars(self) or a shallow copy of it.")
+_extend("C18", "the multiplication-table rules of C17 are evaluated for C18 as well",
+        "Additionally: the precomputed table a verifying key's point may carry holds affine doublings and is walked as C17 requires.")
